@@ -235,7 +235,14 @@ pub fn pwb_payload(rng: &mut Rng, mac: [u8; 6], letter: u8, req: u16, sent: &[(u
     f.after = letter;
     f.mac = mac;
     f.sent = mask;
-    f.thr = mask;
+    // channels over threshold: any subset of the channels sent (forced channels and neighbours of a hit
+    // are sent without being over threshold); every sent channel must reach its pad either way
+    // (seed C10-8 iterated over the threshold mask)
+    f.thr = match rng.below(4) {
+        0 => mask,
+        1 => 0,
+        _ => mask & ((rng.next() as u128) << 64 | rng.next() as u128),
+    };
     f.waves = sent.iter().map(|(_, w)| w.clone()).collect();
     c05::encode(&f)
 }
